@@ -99,7 +99,37 @@ class C07(Check):
         merged = [s for s in body if isinstance(s, ast.AugAssign) and norm(s.target) == "parameters" and isinstance(s.op, ast.BitOr)
                   and "model.get_parameter_names()" in norm(s.value) and "all_parameter_values" in norm(s.value)]
         fill = fill or merged
-        if fill or (src and "all_parameter_values" in norm(src[0].value)):
+        # the fill adds exactly the names that are missing: a name not yet among the plain values gets its cached value
+        fill_bad = None
+        if fill and isinstance(fill[0], ast.For):
+            class I1g(SymInterp):
+                loop_unroll = 1
+
+            o_ = I1g().block(fill[0].body, [Sym()])
+            tv = norm(fill[0].target)
+            n_add = 0
+            for st_ in list(o_.normal) + list(o_.continues):
+                missing = [v_ for c_, v_ in st_.conds if c_ == f"{tv} not in parameters"] + [not v_ for c_, v_ in st_.conds if c_ == f"{tv} in parameters"]
+                stores_ = [e_ for e_ in st_.events if e_[0] == "store" and e_[1] == f"parameters[{tv}]"]
+                if missing and missing[0] and not stores_:
+                    fill_bad = "a parameter name that is not among the plain values gets no value"
+                if stores_ and missing and not missing[0]:
+                    fill_bad = "the plain values are overwritten while the assignment-defined parameters get no value"
+                if stores_ and "all_parameter_values" not in stores_[0][2]:
+                    fill_bad = f"the added value is `{stores_[0][2][:50]}`, not the cached resolved value"
+                n_add += 1 if stores_ else 0
+            if not n_add:
+                fill_bad = fill_bad or "no path of the loop adds a value"
+        elif merged:
+            comps_ = [c_ for c_ in ast.walk(merged[0].value) if isinstance(c_, ast.DictComp)]
+            if comps_ and comps_[0].generators[0].ifs:
+                t_ = comps_[0].generators[0].ifs[0]
+                if not (isinstance(t_, ast.Compare) and len(t_.ops) == 1 and isinstance(t_.ops[0], ast.NotIn) and norm(t_.comparators[0]) == "parameters"):
+                    fill_bad = f"the merged names are filtered by `{norm(t_)[:50]}` instead of `name not in parameters`"
+        if fill_bad:
+            self.violated("G2", MOD, GEN, "parameters-cover-initial-assignments", fill[0], fill_bad + ": a parameter defined by an initial assignment is referred to but never defined in the generated function",
+                          witness="a model with a parameter p := InitialAssignment(2*k): the generated function reads p without defining it (NameError / compile error)")
+        elif fill or (src and "all_parameter_values" in norm(src[0].value)):
             self.holds("G2", MOD, GEN, "parameters-cover-initial-assignments", fill[0] if fill else src[0], "every name of get_parameter_names() gets a value (assignment-defined ones from the cached frozen values)")
         else:
             self.violated("G2", MOD, GEN, "parameters-cover-initial-assignments", src[0] if src else gen,
